@@ -729,7 +729,7 @@ func init() {
 		TrustedBase: baseTrusted,
 		Rules:       []RuleRun{{"R1", R1}, {"R24", R24("sticky", "json", "cborl", "ubjson")}},
 		LevelText:   "Proof by exhaustive obligation discharge over SSA paths: obligations are all call sites whose callee can return a sink/visitor error (sink set computed to a fixpoint over the module's static call graph plus dynamic roots by type); each is discharged by exploring every abstract path from the call to every function exit. Covers every document, value and failure index at once because it never looks at one; tests inject no failure at all.",
-		Technique:   "error-flow path analysis on SSA: sink-set fixpoint, per-call-site path-sensitive walk with phi resolution, nil-branch pruning, field-parked error tracking; strict (visitor) and keeps-failing (writer) disciplines; must-store-failure-state-before-failing-return path rule for push-mode Write",
+		Technique:   "error-flow path analysis on SSA: sink-set fixpoint, per-call-site path-sensitive walk with phi resolution, nil-branch pruning, field-parked error tracking; strict (visitor) and keeps-failing (writer) disciplines, the latter with must-fail callee summaries (least fixpoint over the sink set); must-store-failure-state-before-failing-return path rule for push-mode Write",
 		DesignRef:   "DESIGN.md section 2 R1, section 3 C16",
 	})
 }
